@@ -385,7 +385,6 @@ class TPAnalysis:
         the container that holds Q0 is counted (loop iterations entered on the path, std::for_each = one representative visit)"""
         f = self.fn.get('clear')
         if f is None: return
-        res = run_paths(self.facts, f, TPDomain())
         conds = loop_conds(self.facts, {f.name})
         seen = set()
 
@@ -394,6 +393,16 @@ class TPAnalysis:
             if k in seen: return
             seen.add(k); self.add('TP.4', ok, inst, site, why)
         any_visit = False
+        res = run_paths(self.facts, f, TPDomain())
+        for running in (True, False):
+            for P, E in run_paths(self.facts, f, TPDomain(dict(running=running, queue_empty=False))):
+                if P.end not in ('exit', 'return'): continue
+                # a non-empty queue: the path must get as far as walking (or handing over) the queue, whatever the run flag says
+                from evdom import CONTAINER_TESTS
+                reached = any((e.kind == 'branch' and e.node is not None and e.node.id in conds) or e.kind == 'foreach' or
+                              (e.kind == 'call' and (e.obj == 'm_queue' or 'm_queue' in (e.argobjs or [])) and e.name.split('::')[-1] in ('clear', 'swap', 'pop_front', 'pop_back', 'erase', 'begin', 'end')) for e in E)
+                once(reached, f'clear() row (running={running}, queue non-empty): the queued tasks are reached', f.shortloc(),
+                     '' if reached else f'clear() returns without touching a non-empty queue when the run flag is {"set" if running else "cleared"}: ' + ('stop() calls clear() after it cleared the flag, so the tasks still queued at stop() are never destroyed and run after a restart' if not running else 'queued tasks survive clear()'))
         for P, E in res:
             if P.end not in ('exit', 'return'): continue
             holder = 'm_queue'; qcontent = 'Q0'
